@@ -233,6 +233,27 @@ fn main() {
     println(RATE, a, b, 0.014, a + b, tax(100.0), a < b, 0.1 + 0.2);
 }
 `},
+		{"small:sums-and-differences-bound-by-lets", `let SHIFT = 0.5 + 0.25;
+let COUNT = 3 + 4;
+let LABEL = "a" + "b";
+fn main() {
+    let a = 1.5;
+    let b = 2.25;
+    let sum = a + b;
+    let diff = a - b;
+    let isum = 3 + 4;
+    let idiff = 3 - 4;
+    let text = "x" + "y";
+    let mixed = (a + b) - (b - a);
+    println(sum, diff, isum, idiff, text, mixed, SHIFT, COUNT, LABEL);
+    let acc = 0.0;
+    for i in 0..3 {
+        let step = acc + 0.5;
+        acc = step - 0.25;
+    }
+    println(acc);
+}
+`},
 		{"small:multiplication-by-zero-and-one", `fn scale(a: int, b: int) -> int { a * b }
 fn main() {
     for i in 0..3 { println(scale(3, i), scale(i, 3), i * 0, 5 * i); }
